@@ -19,7 +19,7 @@ std::vector<std::pair<int, int>> weights(const std::string &id) {
       {2, O_SET_EDGE}, {2, O_SET_FACE}, {2, O_SET_CELL},
       {4, O_DEL_V}, {5, O_DEL_E}, {5, O_DEL_F}, {5, O_DEL_C},
       {3, O_SWAP_V}, {3, O_SWAP_E}, {3, O_SWAP_F}, {3, O_SWAP_C},
-      {3, O_GC}, {1, O_CLEAR}, {2, O_EN_VBU}, {2, O_EN_EBU}, {2, O_EN_FBU}, {3, O_EN_DEFERRED}, {3, O_EN_FAST}};
+      {3, O_GC}, {1, O_CLEAR}, {2, O_RESERVE}, {2, O_EN_VBU}, {2, O_EN_EBU}, {2, O_EN_FBU}, {3, O_EN_DEFERRED}, {3, O_EN_FAST}};
   auto add = [&](int wt, int code) { w.emplace_back(wt, code); };
   auto setw = [&](int code, int wt) { for (auto &x : w) if (x.second == code) x.first = wt; };
   if (id == "C03" || id == "C04" || id == "C12" || id == "C17") { add(id == "C03" ? 16 : 9, O_PROP_CREATE); add(id == "C03" ? 18 : 12, O_PROP_WRITE); add(1, O_PROP_DROP); }
